@@ -414,6 +414,8 @@ package plenccodec
 //@   loop 2 entry[C10,C01] loadi64(ptr + 8) == int(count) && int(count) <= loadi64(ptr + 16)
 //@   loop 2 step[C10,C01] called_Codec_Read && call_Codec_Read_arg2 == loadptr(ptr) + head_i * int(c.EltSize) && call_Codec_Read_arg0 == c.Underlying && i == head_i + 1
 //@   loop 1 step[C10] called_typedmemclr && call_typedmemclr_arg1 == loadptr(ptr) + head_i * int(c.EltSize) && i == head_i + 1
+//@   # the repeated-field form (one element per occurrence of the field, wire type 2) is handed to readAsWTLength whole
+//@   ensures[C12,C10] wt == 2 ==> called_WTLengthSliceWrapper_readAsWTLength && n == call_WTLengthSliceWrapper_readAsWTLength_r0 && err == call_WTLengthSliceWrapper_readAsWTLength_r1 && len(call_WTLengthSliceWrapper_readAsWTLength_arg1) == len(data) && call_WTLengthSliceWrapper_readAsWTLength_arg2 == ptr && !called_ReadVarUint
 //@   ensures[C10,C01] wt != 2 && err == nil ==> loopdone_2 || (called_ReadVarUint && call_ReadVarUint_r0 == 0 && loadi64(ptr + 8) == 0)    # ... or nothing was to be read and the target is empty
 
 //@ func plenccodec.WTLengthSliceWrapper.readAsWTLength
@@ -590,6 +592,10 @@ package plenccodec
 //@   ensures[C13] d.Type == 0 ==> called_Outputter_Int64 && (forall s int64 :: len(data) >= vlen(zz(s)) && at(data, 0, venc(zz(s)), 10) ==> call_Outputter_Int64_arg1 == s)
 //@   ensures[C13] d.Type == 1 ==> called_Outputter_Uint64 && (forall u uint64 :: len(data) >= vlen(u) && at(data, 0, venc(u), 10) ==> call_Outputter_Uint64_arg1 == u)
 //@   ensures[C13] d.Type == 7 ==> called_Outputter_Bool
+//@   # flat ints are signed values written as plain varints: the walker hands them on as the signed number the typed
+//@   # decoder reads (a timestamp as a time)
+//@   ensures[C13] d.Type == 11 && d.LogicalType != 1 ==> called_Outputter_Int64 && !called_Outputter_Uint64 && (forall u uint64 :: len(data) >= vlen(u) && at(data, 0, venc(u), 10) ==> call_Outputter_Int64_arg1 == int64(u))
+//@   ensures[C13] d.Type == 11 && d.LogicalType == 1 ==> called_Outputter_Time && !called_Outputter_Int64 && !called_Outputter_Uint64
 //@   ensures[C13] d.Type == 4 ==> called_Outputter_String && len(call_Outputter_String_arg1) == len(data)
 //@   ensures[C13] d.Type == 3 ==> called_Outputter_Float64
 //@   ensures[C13] d.Type == 2 ==> called_Outputter_Float32
